@@ -22,6 +22,8 @@ def poolView (w : World) (pl : Nat) : Option PView := w.pools[pl]?.map Pool.view
 structure HoldersOK (n : Nat) (h : HH) : Prop where
   wf : WF holder_queue_check h
   tags : ∀ k ∈ keys (abs h), ∃ pid, pid < n ∧ k = pid + 1
+  /-- nobody is recorded as holding nothing -/
+  pos : ∀ t ∈ abs h, 0 < t.item.b
 
 structure ViewOK (n : Nat) (v : PView) : Prop extends HoldersOK n v.holders where
   /-- the amount in use is the sum of the amounts held by the individual processes -/
@@ -178,7 +180,8 @@ theorem heldAmount_eq {w : World} {pl : Nat} {v : PView} (hv : poolView w pl = s
 theorem mem_keys_of_mem {q : KPQ} {t : HTag} (h : t ∈ q) : t.key ∈ keys q := List.mem_map.2 ⟨t, h, rfl⟩
 
 /-- add `amt` to the record of a present holder (`update_record`, first branch) / overwrite it (`reset_holder`) -/
-theorem withItem_holders {n : Nat} {h : HH} (ok : HoldersOK n h) {i : Nat} (hi : HashHeap.InR h.count i) (it : Item) :
+theorem withItem_holders {n : Nat} {h : HH} (ok : HoldersOK n h) {i : Nat} (hi : HashHeap.InR h.count i) (it : Item)
+    (hit : 0 < it.b) :
     HoldersOK n (HashHeap.withItem h i it) ∧
     amounts (abs (HashHeap.withItem h i it)) + (h.tag i).item.b = amounts (abs h) + it.b ∧
     (∀ k, k ∈ keys (abs (HashHeap.withItem h i it)) ↔ k ∈ keys (abs h)) ∧
@@ -193,7 +196,12 @@ theorem withItem_holders {n : Nat} {h : HH} (ok : HoldersOK n h) {i : Nat} (hi :
     simp [keys, KPQ.norm]
   have hmem' : KPQ.norm { h.tag i with item := it } ∈ abs (HashHeap.withItem h i it) :=
     hp'.mem_iff.2 List.mem_cons_self
-  refine ⟨⟨hwf, fun k hk => ok.tags k ((hkeys k).1 hk)⟩, ?_, hkeys, ?_, ?_, ?_⟩
+  have hpos : ∀ t ∈ abs (HashHeap.withItem h i it), 0 < t.item.b := by
+    intro t ht
+    rcases List.mem_cons.1 (hp'.mem_iff.1 ht) with rfl | hm
+    · exact hit
+    · exact ok.pos t (List.mem_filter.1 hm).1
+  refine ⟨⟨hwf, fun k hk => ok.tags k ((hkeys k).1 hk), hpos⟩, ?_, hkeys, ?_, ?_, ?_⟩
   · rw [HashHeap.amounts_perm hp', HashHeap.amounts_perm hp]
     simp [KPQ.norm]; omega
   · have := HashHeap.amountOf_of_mem hwf.keys_nodup hmem'
@@ -218,7 +226,7 @@ theorem withItem_holders {n : Nat} {h : HH} (ok : HoldersOK n h) {i : Nat} (hi :
 
 /-- a new holder record (`update_record`, second branch): with fewer than 2^31 processes the enqueue cannot fail -/
 theorem enqueue_holders {n : Nat} {h : HH} (ok : HoldersOK n h) (hn : n < 2 ^ 31) {p : Nat} (hp : p < n)
-    (hfresh : p + 1 ∉ keys (abs h)) (it : Item) (d i : Int) :
+    (hfresh : p + 1 ∉ keys (abs h)) (it : Item) (hit : 0 < it.b) (d i : Int) :
     ∃ h', HashHeap.enqueue holder_queue_check h it (p + 1) d i = .ok (h', p + 1) ∧ HoldersOK n h' ∧
       amounts (abs h') = amounts (abs h) + it.b ∧
       (∀ k, k ∈ keys (abs h') ↔ k ∈ keys (abs h) ∨ k = p + 1) ∧
@@ -236,11 +244,15 @@ theorem enqueue_holders {n : Nat} {h : HH} (ok : HoldersOK n h) (hn : n < 2 ^ 31
     simp [keys, KPQ.insert, KPQ.norm]
     exact Or.comm
   have hl := HashHeap.lookup_after_insert ok.wf hwf ⟨p + 1, 0, it, d, i⟩ hperm
-  refine ⟨h', hrun, ⟨hwf, ?_⟩, ?_, hkeys, ?_, ?_⟩
+  refine ⟨h', hrun, ⟨hwf, ?_, ?_⟩, ?_, hkeys, ?_, ?_⟩
   · intro k hk
     rcases (hkeys k).1 hk with hk | rfl
     · exact ok.tags k hk
     · exact ⟨p, hp, rfl⟩
+  · intro t ht
+    rcases List.mem_cons.1 (hperm.mem_iff.1 ht) with rfl | hm
+    · exact hit
+    · exact ok.pos t hm
   · rw [HashHeap.amounts_perm hperm]; simp [KPQ.insert, KPQ.norm]; omega
   · unfold amountOf; rw [hl.1]; rfl
   · intro k hk; unfold amountOf; rw [hl.2 k hk]
@@ -259,7 +271,8 @@ theorem remove_holders {n : Nat} {h h' : HH} (ok : HoldersOK n h) (p : Nat) {r :
   have hkeys : ∀ k, k ∈ keys (abs s') ↔ k ∈ keys (abs h) ∧ k ≠ p + 1 := by
     intro k; rw [HashHeap.keys_perm hperm, HashHeap.keys_remove]
   have hl := HashHeap.lookup_after_remove ok.wf hwf (p + 1) hperm
-  refine ⟨⟨hwf, fun k hk => ok.tags k ((hkeys k).1 hk).1⟩, ?_, hkeys, h2.symm, ?_, ?_⟩
+  refine ⟨⟨hwf, fun k hk => ok.tags k ((hkeys k).1 hk).1,
+    fun t ht => ok.pos t (List.mem_filter.1 (hperm.mem_iff.1 ht)).1⟩, ?_, hkeys, h2.symm, ?_, ?_⟩
   · rw [HashHeap.amounts_perm hperm]; exact HashHeap.amounts_remove ok.wf.keys_nodup (p + 1)
   · unfold amountOf; rw [hl.1]; rfl
   · intro k hk; unfold amountOf; rw [hl.2 k hk]
@@ -286,7 +299,8 @@ theorem dequeue_holders {n : Nat} {h : HH} (ok : HoldersOK n h) (hpos : 0 < h.co
       · exact hm
   have hmem : KPQ.norm (h.tag 1) ∈ abs h := hperm.mem_iff.2 List.mem_cons_self
   have hl := HashHeap.lookup_after_dequeue ok.wf hwf (KPQ.norm (h.tag 1)) hperm
-  refine ⟨h', hrun, ⟨hwf, fun k hk' => ok.tags k ((hkeys k).1 hk').1⟩, ?_, hkeys, hk.mem_iff.2 List.mem_cons_self, ?_, ?_, ?_⟩
+  refine ⟨h', hrun, ⟨hwf, fun k hk' => ok.tags k ((hkeys k).1 hk').1,
+    fun t ht => ok.pos t (hperm.mem_iff.2 (List.mem_cons_of_mem _ ht))⟩, ?_, hkeys, hk.mem_iff.2 List.mem_cons_self, ?_, ?_, ?_⟩
   · rw [HashHeap.amounts_perm hperm]; simp [KPQ.norm]; omega
   · have := HashHeap.amountOf_of_mem ok.wf.keys_nodup hmem
     simpa [KPQ.norm] using this
@@ -312,7 +326,14 @@ theorem reprio_holders {n : Nat} {h h' : HH} (ok : HoldersOK n h) {k : Nat} (hk 
   have hkeys : ∀ j, j ∈ keys (abs s') ↔ j ∈ keys (abs h) := by
     intro j; rw [HashHeap.keys_perm hperm, HashHeap.keys_reprio]
   have hl := HashHeap.lookup_after_reprio ok.wf hwf k d i hperm
-  refine ⟨⟨hwf, fun j hj => ok.tags j ((hkeys j).1 hj)⟩, ?_, hkeys, ?_⟩
+  have hpos : ∀ t ∈ abs s', 0 < t.item.b := by
+    intro t ht
+    have := hperm.mem_iff.1 ht
+    unfold KPQ.reprio at this
+    obtain ⟨y, hy, rfl⟩ := List.mem_map.1 this
+    have := ok.pos y hy
+    split <;> exact this
+  refine ⟨⟨hwf, fun j hj => ok.tags j ((hkeys j).1 hj), hpos⟩, ?_, hkeys, ?_⟩
   · rw [HashHeap.amounts_perm hperm, HashHeap.amounts_reprio]
   · intro j
     unfold amountOf
